@@ -53,7 +53,28 @@ type NodeCfg struct {
 }
 
 // Node is a real application with one committed block, ready for CheckTx.
+// captureLogger keeps what the application logs at error level (the ante handler and baseapp log the stack of a
+// panic they recover), so that a recovered panic can be attributed to a source line.
+type captureLogger struct{ last *string }
+
+func (c captureLogger) Info(string, ...any)  {}
+func (c captureLogger) Warn(string, ...any)  {}
+func (c captureLogger) Debug(string, ...any) {}
+func (c captureLogger) Error(msg string, kv ...any) {
+	*c.last = msg + " " + fmt.Sprint(kv...)
+}
+func (c captureLogger) With(...any) log.Logger { return c }
+func (c captureLogger) Impl() any              { return nil }
+
+// LastError returns and clears the last error-level log entry.
+func (n *Node) LastError() string {
+	s := *n.logbuf
+	*n.logbuf = ""
+	return s
+}
+
 type Node struct {
+	logbuf  *string
 	App     *app.App
 	Opts    *viper.Viper
 	Signer  *helpers.Signer
@@ -93,7 +114,8 @@ func NewNode(t testing.TB, cfg NodeCfg, signer *helpers.Signer) *Node {
 	}
 	// cmd/root.go:newApp
 	gasPrice := cast.ToString(v.Get(sdkserver.FlagMinGasPrices))
-	a := app.New(log.NewNopLogger(), dbm.NewMemDB(), nil, true, map[int64]bool{}, fxtypes.GetDefaultNodeHome(), v,
+	logbuf := new(string)
+	a := app.New(captureLogger{last: logbuf}, dbm.NewMemDB(), nil, true, map[int64]bool{}, fxtypes.GetDefaultNodeHome(), v,
 		baseapp.SetMinGasPrices(gasPrice))
 
 	// ---- genesis (as testutil/helpers.setupWithGenesisValSet, plus the funded signer)
@@ -174,7 +196,7 @@ func NewNode(t testing.TB, cfg NodeCfg, signer *helpers.Signer) *Node {
 	if _, err = a.Commit(); err != nil {
 		t.Fatalf("Commit: %v", err)
 	}
-	n := &Node{App: a, Opts: v, Signer: signer, ValAddr: valAddr}
+	n := &Node{App: a, Opts: v, Signer: signer, ValAddr: valAddr, logbuf: logbuf}
 	ctx := a.NewContext(true)
 	acc := a.AccountKeeper.GetAccount(ctx, signer.AccAddress())
 	if acc == nil {
